@@ -133,6 +133,9 @@ func (fi *funcInfo) caseSplit(a string, goals, facts []Lin, depth int) bool {
 	if !ok {
 		return false
 	}
+	if call, isCall := v.(*ssa.Call); isCall && !isLen && call.Parent() == fi.fn {
+		return fi.minMaxSplit(a, call, goals, facts, depth)
+	}
 	phi, ok = v.(*ssa.Phi)
 	if !ok || phi.Parent() != fi.fn {
 		return false
@@ -580,4 +583,58 @@ func dedupLin(ls []Lin) []Lin {
 		}
 	}
 	return out
+}
+
+// minMaxSplit: atom a is the result of the builtin min or max over integers; the goals are
+// proved once per operand, with a replaced by that operand under the fact that it is the
+// smallest (largest) of them.
+func (fi *funcInfo) minMaxSplit(a string, call *ssa.Call, goals, facts []Lin, depth int) bool {
+	b, ok := call.Call.Value.(*ssa.Builtin)
+	if !ok || (b.Name() != "min" && b.Name() != "max") || len(call.Call.Args) < 2 {
+		return false
+	}
+	if _, _, isInt := isIntType(call.Type()); !isInt {
+		return false
+	}
+	if fi.busyCall == nil {
+		fi.busyCall = map[*ssa.Call]bool{}
+	}
+	if fi.busyCall[call] {
+		return false
+	}
+	fi.busyCall[call] = true
+	defer delete(fi.busyCall, call)
+	var ts []Lin
+	for _, x := range call.Call.Args {
+		ts = append(ts, fi.term(x))
+	}
+	for i, by := range ts {
+		if by.mentions(a) {
+			return false
+		}
+		var g2, f2 []Lin
+		for _, g := range goals {
+			g2 = append(g2, g.subst(a, by))
+		}
+		for _, f := range facts {
+			f2 = append(f2, f.subst(a, by))
+		}
+		for j, o := range ts {
+			if j == i {
+				continue
+			}
+			if b.Name() == "min" {
+				f2 = append(f2, o.sub(by)) // o - by >= 0
+			} else {
+				f2 = append(f2, by.sub(o))
+			}
+		}
+		fi.substs = append(fi.substs, substEntry{a, by})
+		ok := fi.prove(g2, f2, depth+1)
+		fi.substs = fi.substs[:len(fi.substs)-1]
+		if !ok {
+			return false
+		}
+	}
+	return true
 }
